@@ -24,7 +24,8 @@ Sources == <<"$A", "(list $A $B)", "'($A)", "[$A {:k $A}]", "(str \"$A\" $A)", "
 Values == <<"1", "nil", "-5", "\"s\"", "\"a\\\"b\"", "\"a\\\\b\"", "\"a;b\"", "\"(a)\"", "\"a\\nb\"", "\"{\\\"a\\\":1}\"",
             "\"{\\\"a\\\":\\n1}\"", "\"{\\\"a\\\":1}\\n\\n;; $B 1\\n\\n{\\\"b\\\":2}\"", "\"x\\n\\n;; $B 1\"", "sym", "$B", ":k",
             "(1 \"a\\nb\" [c])", "{:a \"{\\\"x\\\":\\n2}\"}", "[]", "\"$B\"", "\";; $B 9\"", "\"¬\"", "\"{\\\"¬\\\"}\"", "(quote x)",
-            "\"\"", "\" \"", "true", "#{\"a\"}", "\"{\\\"a\\\":1}\\n\"", "\"\\n\"">>
+            "\"\"", "\" \"", "true", "#{\"a\"}", "\"{\\\"a\\\":1}\\n\"", "\"\\n\"",
+            "\"a\tb\"", "\"a\rb\"", "\"é ʞ\"", "[\"x\ty\" {:k \"\r\"}]">>
 
 Names == <<"$A", "$B", "$A-B", "$1", "$A_B">>
 
@@ -72,15 +73,17 @@ CONSTANT TwoNames   \* TRUE: also assign a second name
 
 VARIABLES s, n1, v1, n2, v2, ph
 vars == <<s, n1, v1, n2, v2, ph>>
-Init == /\ ph = 0 /\ s \in 1..Len(Srcs) /\ n1 \in 1..Len(Names) /\ v1 \in 1..Len(Values)
-        /\ IF TwoNames THEN n2 \in 1..Len(Names) /\ n2 # n1 /\ v2 \in 1..Len(Values) ELSE n2 = 0 /\ v2 = 0
+Init == /\ ph = 0 /\ s \in 1..Len(Srcs)
+        /\ \/ /\ n1 \in 1..Len(Names) /\ v1 \in 1..Len(Values)
+              /\ IF TwoNames THEN n2 \in 1..Len(Names) /\ n2 # n1 /\ v2 \in 1..Len(Values) ELSE n2 = 0 /\ v2 = 0
+           \/ n1 = 0 /\ v1 = 0 /\ n2 = 0 /\ v2 = 0      \* the EMPTY assignment
 
 Same(a, b) == a.st = b.st /\ (a.st = "ok" => StructEq(a.v, b.v))
 
 Next == /\ ph = 0 /\ ph' = 1 /\ UNCHANGED <<s, n1, v1, n2, v2>>
         /\ LET V == TLCGet(3)
-               names == IF n2 = 0 THEN <<Names[n1]>> ELSE <<Names[n1], Names[n2]>>
-               vals == IF n2 = 0 THEN <<V[v1]>> ELSE <<V[v1], V[v2]>>
+               names == IF n1 = 0 THEN <<>> ELSE IF n2 = 0 THEN <<Names[n1]>> ELSE <<Names[n1], Names[n2]>>
+               vals == IF n1 = 0 THEN <<>> ELSE IF n2 = 0 THEN <<V[v1]>> ELSE <<V[v1], V[v2]>>
                m == [x \in {names[k] : k \in 1..Len(names)} |-> vals[CHOOSE k \in 1..Len(names) : names[k] = x]]
                def == ReadWith(Srcs[s], Ph(m))
                impl == ReadWithPreambleImpl(AddPreambleImpl(Srcs[s], names, vals))
